@@ -56,7 +56,10 @@ def two_operands(fn):
     return ps[0], ps[1]
 
 
-def check_binary(crate, fn, out, label, expect_symmetric=True):
+FRAMES = {}  # label -> the common representation in which the function compares / combines its operands
+
+
+def check_binary(crate, fn, out, label, expect_symmetric=True, _depth=0):
     ops = two_operands(fn)
     f = crate.file_of(fn)
     if ops is None:
@@ -73,6 +76,37 @@ def check_binary(crate, fn, out, label, expect_symmetric=True):
             tgt = operand_prov(n["args"][0], inits, operands, via=via)
             convs.append((n, recv, tgt, via))
     if not convs:
+        # alternative symmetric idiom: both operands brought to their base-unit representation
+        bases = []
+        for n in walk(fn["body"]):
+            if n.get("k") == "MethodCall" and n["name"] == "to_base_unit_representation":
+                bases.append((n, operand_prov(n["recv"], inits, operands)))
+        who = set()
+        for (_n, pr) in bases:
+            if len(pr) == 1:
+                who |= pr
+        if who == set(operands):
+            cf, cl = crate.loc(fn, bases[0][0])
+            out.ok("%s:convert(both->base representation)" % label, cf, cl, "both operands are brought to their base-unit representation")
+            FRAMES[label] = "base-unit representation"
+            return
+        # the conversion may live in a crate-local helper that receives both operands: analyse the helper instead
+        if _depth < 2:
+            for n in walk(fn["body"]):
+                if n.get("k") not in ("MethodCall", "Call"):
+                    continue
+                c = callee(n) or ""
+                helper = crate.hir.get(c)
+                if helper is None or helper is fn:
+                    continue
+                args = ([n["recv"]] if n.get("k") == "MethodCall" else []) + list(n["args"])
+                provs = [operand_prov(a, inits, operands) for a in args]
+                single = [p for p in provs if len(p) == 1]
+                if len({next(iter(p)) for p in single}) == 2 and len(two_operands(helper) or ()) == 2:
+                    before = len(out.findings) + len(out.errors)
+                    check_binary(crate, helper, out, label, expect_symmetric, _depth + 1)
+                    if len(out.findings) + len(out.errors) > before:
+                        return
         out.error("%s: no convert_to call found" % label)
         return
     # group by target provenance
@@ -97,6 +131,7 @@ def check_binary(crate, fn, out, label, expect_symmetric=True):
             sel = any(v.endswith(SELECTORS) for v in via)
             mirror = any(rc == {other} and tg == tgt for (_n, rc, tg, _v) in convs)
             if sel and mirror:
+                FRAMES[label] = "smaller_unit(a.unit, b.unit)"
                 out.ok(key, cf, cl, "both operands are converted to the unit chosen by the symmetric selector smaller_unit(a.unit, b.unit)")
             elif not sel:
                 out.violation(key, cf, cl, "the conversion target depends on both operands but not through the symmetric selector `Unit::smaller_unit`")
@@ -204,8 +239,18 @@ def rule_sym_cmp(crate):
         (find_impl(crate, "std::cmp::PartialOrd", "partial_cmp", "crate::quantity::Quantity"), "Quantity::partial_cmp"),
         (crate.find_fn("quantity::Quantity::partial_cmp_preserve_nan"), "Quantity::partial_cmp_preserve_nan"),
     ]
+    FRAMES.clear()
     for fn, label in fns:
         check_binary(crate, fn, out, label)
+    # equality and ordering must compare in the SAME common representation: the conversion rounds, and two different
+    # representations round differently, so `a < b`, `a == b`, `a > b` would no longer be mutually exclusive
+    frames = {label: FRAMES.get(label) for _fn, label in fns}
+    known = {v for v in frames.values() if v}
+    f0 = crate.file_of(fns[0][0])
+    if len(known) == 1 and all(frames.values()):
+        out.ok("cmp:same-frame", f0, fns[0][0]["line"], "==, partial_cmp and partial_cmp_preserve_nan all compare in %s" % next(iter(known)))
+    elif len(known) > 1:
+        out.violation("cmp:same-frame", f0, fns[0][0]["line"], "equality and ordering compare in different representations (%s): the conversions round differently, so for operands in different units that are equal within an ulp `a < b`, `a == b`, `a > b` are not mutually exclusive (or none holds)" % ", ".join("%s: %s" % (k.split("::")[-1], v) for k, v in sorted(frames.items())))
     # equality and ordering must use the same (IEEE) comparison family on the values
     for fn, label in fns:
         calls = [(callee(x) or "", x) for x in walk(fn["body"]) if x.get("k") in ("MethodCall", "Call", "Binary")]
